@@ -909,6 +909,15 @@ func (p *proxyObject) construct(args []Value, newTarget *Object) *Object {
 	return p.ctor(args, newTarget)
 }
 
+// sameAccessor reports whether the getter or setter given in a descriptor (a function object, or
+// undefined) is the one the property currently has (nil when it has none).
+func sameAccessor(v Value, current *Object) bool {
+	if o, ok := v.(*Object); ok {
+		return o == current
+	}
+	return current == nil
+}
+
 func (p *proxyObject) __isCompatibleDescriptor(extensible bool, desc *PropertyDescriptor, current *valueProperty) bool {
 	if current == nil {
 		return extensible
@@ -928,7 +937,8 @@ func (p *proxyObject) __isCompatibleDescriptor(extensible bool, desc *PropertyDe
 		}
 
 		if desc.IsData() != !current.accessor {
-			return desc.Configurable != FLAG_FALSE
+			// a non-configurable property cannot change its kind
+			return false
 		}
 
 		if desc.IsData() && !current.accessor {
@@ -946,10 +956,10 @@ func (p *proxyObject) __isCompatibleDescriptor(extensible bool, desc *PropertyDe
 		}
 		if desc.IsAccessor() && current.accessor {
 			if !current.configurable {
-				if desc.Setter != nil && desc.Setter.SameAs(current.setterFunc) {
+				if desc.Setter != nil && !sameAccessor(desc.Setter, current.setterFunc) {
 					return false
 				}
-				if desc.Getter != nil && desc.Getter.SameAs(current.getterFunc) {
+				if desc.Getter != nil && !sameAccessor(desc.Getter, current.getterFunc) {
 					return false
 				}
 			}
